@@ -400,6 +400,7 @@ def run(ctx):
     for _ in range(ctx.scale(1, 3)):
         c = gen_case(ctx.rng, False, small=True)
         c["recorder"], c["eps_tier"], c["mu_tier"] = "widen32", 1, 0
+        c["widths"] = None   # float64 grid edges would promote the float32 fields (x64 is enabled process-wide)
         c["T"] = min(c["T"], 6)
         one_case(ctx, c, sample=True, k=False)
     # public route
